@@ -24,6 +24,17 @@ pub fn find_integral_basis(theta: &Algebraic) -> Order {
     o
 }
 
+/// Access to the private Round 2 step for the verification harness.
+#[cfg(feature = "verif-hooks")]
+pub mod verif {
+    use crate::algebraic::Algebraic;
+    use crate::order::Order;
+    use num::BigInt;
+    pub fn one_step(theta: &Algebraic, o: &Order, p: &BigInt) -> (Order, u64) {
+        super::round2::one_step(theta, o, p)
+    }
+}
+
 #[cfg(test)]
 mod tests {
     use super::*;
